@@ -608,6 +608,9 @@ func gen(t *rapid.T) FileSpec {
 		s.Deprecated = rapid.IntRange(0, 5).Draw(t, "deprecatedSvc") == 0
 		s.Comment = rapid.SampledFrom(comments).Draw(t, "svcComment")
 		nm := rapid.IntRange(1, 5).Draw(t, "nmethods")
+		if rapid.IntRange(0, 9).Draw(t, "noMethods") == 0 {
+			nm = 0 // a service without methods is legal
+		}
 		for j := 0; j < nm; j++ {
 			s.Methods = append(s.Methods, MethodSpec{
 				Name:         nameGen(t, "method"),
